@@ -181,6 +181,18 @@ Definition get_search_term (expr : string) : outcome (option terms) :=
         end
   end.
 
+(* What Searches.search_matches receives when the caller hands over a document
+   node (a value, an element, a key, a set member): ruamel's ScalarBoolean (an
+   anchored YAML boolean; Doc.is_sbool) stays recognisable, anything else is its
+   Python value.  Anchor NAMES are plain str objects: HVal (PStr name). *)
+Definition leaf_pyval (n : node) : pyval :=
+  match n with NLeaf _ v => v | _ => PNone end.
+Definition node_hay (n : node) : hay :=
+  match n with
+  | NLeaf _ (PInt z) => if is_sbool n then HSBool (negb (Z.eqb z 0)) else HVal (PInt z)
+  | _ => HVal (leaf_pyval n)
+  end.
+
 Section Search.
 Variable lit : string -> outcome litres.
 Variable re_search : string -> string -> outcome reres.
@@ -197,8 +209,8 @@ Definition is_slash : bool := match sp with Slash => true | Dot => false end.
 Definition escp (s : string) : string := escape_path_section s sepch.
 
 (* (matches and not invert) or (invert and not matches) *)
-Definition term_matches (hay : pyval) : outcome bool :=
-  do m <- search_matches lit re_search (t_method tm) (t_term tm) hay;
+Definition term_matches (h : hay) : outcome bool :=
+  do m <- search_matches_h lit re_search (t_method tm) (t_term tm) h;
   Ok (xorb m (t_inv tm)).
 
 (* Searches.search_anchor; returns the classification and the new seen_anchors *)
@@ -213,7 +225,7 @@ Definition search_anchor (n : node) (seen : list string) (include_aliases : bool
         Ok (if is_alias then UnsearchableAlias else UnsearchableAnchor, seen')
       else if is_alias && negb include_aliases then Ok (AliasExcluded, seen')
       else
-        do m <- term_matches (PStr name);
+        do m <- term_matches (HVal (PStr name));
         Ok (if m then (if is_alias then AliasIncluded else AMatch) else ANoMatch, seen')
   end.
 
@@ -333,7 +345,7 @@ Definition ymk_hits (pre : string) (lc : loc) (oi : N) : outcome (list hit) :=
              foldM (fun (acc : list hit) (an : string * node) =>
                       if data_eqb (snd an) ref_node then
                         let tmp := pre ++ "[&" ++ escp (fst an) ++ "]" in
-                        do m <- term_matches (PStr (fst an));
+                        do m <- term_matches (HVal (PStr (fst an)));
                         Ok (if m then (acc ++ [mkhit tmp lc HYmk])%list else acc)
                       else Ok acc)
                    all_anchors acc)
@@ -351,7 +363,7 @@ Definition value_part (rec : node -> string -> loc -> list string -> outcome res
       if is_unsearchable_alias am && negb (o_valias o) then Ok ([], seen)
       else if is_container v then rec v tmp lc' seen
       else if o_values o then
-        do m <- term_matches (key_val v);
+        do m <- term_matches (node_hay v);
         Ok (if m then [mkhit tmp lc' HValue] else [], seen)
       else Ok ([], seen)
   end.
@@ -393,7 +405,7 @@ Fixpoint search_for_paths (n : node) (bp : string) (lc : loc) (seen : list strin
                          if is_hit ka then
                            do hs <- report val tmp lc' HKeyAnchor seen2; Ok (Some hs)
                          else
-                           do m <- term_matches (key_val key);
+                           do m <- term_matches (node_hay key);
                            if m then do hs <- report val tmp lc' HKey seen2; Ok (Some hs)
                            else Ok None
                        else Ok None);
@@ -414,7 +426,7 @@ Fixpoint search_for_paths (n : node) (bp : string) (lc : loc) (seen : list strin
               if negb (o_kalias o) && is_excl ka then Ok ([], snd ka_s)
               else if is_hit ka then Ok ([mkhit tmp lc' HMemberAnchor], snd ka_s)
               else
-                do m <- term_matches (key_val key);
+                do m <- term_matches (node_hay key);
                 Ok (if m then [mkhit tmp lc' HMember] else [], snd ka_s))
            els 0 seen
   | NLeaf _ _ => Ok ([], seen)
